@@ -103,6 +103,22 @@ def node_weight(u):
     return 0.5 + (u % 3) * 0.75
 
 
+def _fresh(x):
+    """an equal but distinct object (labels read from an edge list are created afresh for every edge: two occurrences of
+    one node are equal, not identical)"""
+    if isinstance(x, tuple):
+        return tuple(list(x))
+    if isinstance(x, frozenset):
+        return frozenset(set(x))
+    if isinstance(x, str):
+        return "".join(list(x))
+    if isinstance(x, int) and not isinstance(x, bool):
+        return int(str(x))
+    if isinstance(x, float):
+        return float(repr(x))
+    return x
+
+
 def build_graph(sc, lab, norder, eorder, weighted):
     import networkx as nx
     if weighted == "directed":
@@ -124,9 +140,9 @@ def build_graph(sc, lab, norder, eorder, weighted):
             G.add_node(lab[u])
     for u, v in eorder:
         if weighted:
-            G.add_edge(lab[u], lab[v], w=edge_weight(u, v))
+            G.add_edge(_fresh(lab[u]), _fresh(lab[v]), w=edge_weight(u, v))
         else:
-            G.add_edge(lab[u], lab[v])
+            G.add_edge(_fresh(lab[u]), _fresh(lab[v]))
     return G
 
 
